@@ -140,7 +140,7 @@ func (o *Options) populateResolver(c *cli.Context) {
 
 func GetTimeFromString(now time.Time, format string, date string) (time.Time, error) {
 	if date == "today" {
-		return now.Local(), nil
+		return now, nil
 	}
 	if date == "yesterday" {
 		return now.AddDate(0, 0, -1), nil
